@@ -21,7 +21,7 @@ import (
 
 func TestMain(m *testing.M) { drv.Main(m) }
 
-const rule = "standalone epochs keeper on an in-memory multistore: 1-4 timers (durations 1ns..30d, start before/at/after the first block, some already counting), 1-4 subscribers in MultiEpochHooks with a generated outcome table (succeed / return error / panic string / panic error / runtime panic / out-of-gas) and 0-3 writes before the outcome, block-time sequences with gaps 0, 1ns, to the exact epoch end -1ns/0/+1ns, several epochs, days; oracle: per-timer reference model (pure function of the block times) for epoch number/start time/started flag after every block, the exact per-timer signal sequence as observed by the subscribers, store contents == writes of exactly the successful invocations, out-of-gas propagates out of BeginBlocker; non-trivial = a multi-epoch gap and a failing subscriber with partial writes occurred; distinct by history hash"
+const rule = "standalone epochs keeper on an in-memory multistore: 1-4 timers (durations 1ns..30d, start before/at/after the first block, some already counting as after a genesis import, with a recorded start height of 0, below or far above the chain height), 1-4 subscribers in MultiEpochHooks with a generated outcome table (succeed / return error / panic string / panic error / runtime panic / out-of-gas) and 0-3 writes before the outcome, block-time sequences with gaps 0, 1ns, to the exact epoch end -1ns/0/+1ns, several epochs, days; oracle: per-timer reference model (pure function of the block times) for epoch number/start time/started flag after every block, the exact per-timer signal sequence as observed by the subscribers, store contents == writes of exactly the successful invocations, out-of-gas propagates out of BeginBlocker; non-trivial = a multi-epoch gap and a failing subscriber with partial writes occurred; distinct by history hash"
 
 var base = time.Date(2030, 1, 1, 0, 0, 0, 0, time.UTC)
 
@@ -170,6 +170,7 @@ func TestPropEpochs(t *testing.T) {
 		for i := 0; i < nt; i++ {
 			tm := &timer{id: ids[i], dur: durations[rapid.IntRange(0, len(durations)-1).Draw(rt, "dur")]}
 			info := types.EpochInfo{Identifier: tm.id, Duration: tm.dur}
+			recorded := int64(0)
 			switch rapid.IntRange(0, 4).Draw(rt, "startKind") {
 			case 0: // zero start time: becomes the block time at registration
 				tm.start = now
@@ -192,11 +193,21 @@ func TestPropEpochs(t *testing.T) {
 				info.CurrentEpoch = tm.epoch
 				info.CurrentEpochStartTime = tm.curStart
 				tm.n0, tm.t0 = tm.epoch, tm.curStart
+				// exported state records the height at which the current epoch began on the exporting chain; the importing
+				// chain may start at any height (a re-genesis at height 1 is the usual case). Ticks depend on block time only.
+				recorded = rapid.SampledFrom([]int64{0, 0, 1, 2, 37, 5000, 1 << 40}).Draw(rt, "recordedStartHeight")
+				info.CurrentEpochStartHeight = recorded
+				if recorded > height {
+					c.Class("restored-timer-with-start-height-above-chain-height")
+				}
 			}
 			if err := k.AddEpochInfo(ctx, info); err != nil {
 				rt.Fatalf("AddEpochInfo: %v", err)
 			}
 			tm.height = height
+			if recorded != 0 {
+				tm.height = recorded
+			}
 			timers[tm.id] = tm
 		}
 		order := make([]string, 0, nt)
